@@ -8,6 +8,7 @@ import WowVerif.Model.Dispatch08
 import WowVerif.Model.Dispatch09
 import WowVerif.Model.Dispatch11
 import WowVerif.Model.Dispatch12
+import WowVerif.Model.Dispatch20
 import WowVerif.Model.Dispatch17
 import WowVerif.Model.Dispatch18
 import WowVerif.Model.Dispatch18b
@@ -20,7 +21,7 @@ structure St where
 
 def step (st : St) (line : String) : St × String :=
   let toks := (line.trimAscii.toString.splitOn " ").filter (· ≠ "")
-  match ((((((((c04 toks).orElse (fun _ => c17 toks)).orElse (fun _ => c18 toks)).orElse (fun _ => c18b toks)).orElse (fun _ => c18c toks)).orElse (fun _ => c03 toks)).orElse (fun _ => c09 toks)).orElse (fun _ => c12 toks)).orElse (fun _ => c11 toks) with
+  match (((((((((c04 toks).orElse (fun _ => c17 toks)).orElse (fun _ => c18 toks)).orElse (fun _ => c18b toks)).orElse (fun _ => c18c toks)).orElse (fun _ => c03 toks)).orElse (fun _ => c09 toks)).orElse (fun _ => c12 toks)).orElse (fun _ => c11 toks)).orElse (fun _ => c20 toks) with
   | some r => (st, r)
   | none =>
     match c08 st.chain toks with
